@@ -31,7 +31,7 @@ def run_check(prop, tier):
         from . import selftest
         selfval = selftest.run(prop)
     return report.finish(prop, tier, obs, floors + f, info, t0, res["explanation"], res["trusted"],
-                         selfval=selfval, extra_cov=res.get("coverage"))
+                         selfval=selfval, extra_cov=res.get("coverage"), deferred=ctx.deferred)
 
 
 def main(argv):
